@@ -60,6 +60,37 @@ def run(ctx):
                 ctx.violation("pawn key differs for equal pawn placement: %s vs %s" % (pawnseen[canon], (ph, pos4)),
                               {"a": pawnseen[canon], "b": [ph, pos4]}, key="c04pawn:" + canon)
             pawnseen.setdefault(canon, (ph, pos4))
+    # the engine's OWN tables (zobrist::init(); the correspondence above runs on fixed tables): every word a position key can be
+    # built from must be non-zero and pairwise distinct, otherwise two positions differing in one component collide systematically
+    rc, zt, err = run_lines(impl, ["ztable", "ztable"])
+    nz = 0
+    for line in zt:
+        parts = [x.split() for x in (line or "").split("|")]
+        if len(parts) != 4 or len(parts[0]) != 768 or len(parts[1]) != 16 or len(parts[2]) != 1 or len(parts[3]) != 8:
+            ctx.violation("ztable output malformed: %s" % (line or "")[:200], {"line": line}, key="c04:ztable", no_input=True)
+            v2 += 1
+            break
+        names = ["piece[%d][%d]" % (1 + i // 64, i % 64) for i in range(768)] + ["castling[%d]" % i for i in range(16)] + ["side"] + ["ep[%d]" % i for i in range(8)]
+        vals = [int(x, 16) for x in parts[0] + parts[1] + parts[2] + parts[3]]
+        nz += len(vals)
+        seenv = {}
+        for nm, v in zip(names, vals):
+            bad = None
+            if v == 0 and nm != "castling[0]":
+                bad = "%s is zero: a position with that feature has the same key as the position without it" % nm
+            elif v in seenv and not (v == 0):
+                bad = "%s equals %s (%x)" % (nm, seenv[v], v)
+            seenv.setdefault(v, nm)
+            if bad and v2 < 4:
+                v2 += 1
+                fen = None
+                if nm.startswith("ep["):
+                    f_ = "abcdefgh"[int(nm[3])]
+                    fen = "rnbqkbnr/ppppppp1/8/8/7p/8/PPPPPPPP/RNBQKBNR w KQkq - 0 2".replace("7p", "%dp%d" % (int(nm[3]), 7 - int(nm[3])) if 0 < int(nm[3]) < 7 else ("p7" if int(nm[3]) == 0 else "7p"))
+                ctx.violation("Zobrist table as built by zobrist::init(): %s" % bad,
+                              {"entry": nm, "value": "%x" % v, "example": "startpos moves %s2%s4 vs the same position without the en-passant square" % (f_, f_) if nm.startswith("ep[") else None},
+                              key="c04:ztable:" + nm)
+    ctx.notes["zobrist_words_checked_nonzero_distinct"] = nz
     # sanity (validation only): distinct positions got distinct keys in this process
     keys = {}
     coll = 0
